@@ -525,3 +525,77 @@ VH_OP(rselftest) {
   }
   return "survived " + std::to_string(sink);
 }
+
+// ------------------------------------------------------------------ tamper hook (C02 "semantic corruption")
+// The library (built with -DDRACO_VERIF) weakly refers to draco_verif_tamper(kind, &value) just before an
+// Edgebreaker encoder hands a value to its entropy coder (src/draco/core/verif_hooks.h). The harness owns the
+// state: per-kind occurrence counters and original values, and at most one (kind, occurrence) whose value is
+// replaced.
+namespace {
+struct TamperState {
+  bool active = false;
+  int target_kind = -1;
+  long target_occ = -1;
+  uint32_t value = 0;
+  bool hit = false;
+  std::vector<std::vector<uint32_t>> seen = std::vector<std::vector<uint32_t>>(8);
+};
+thread_local TamperState g_tamper;
+}  // namespace
+
+extern "C" void draco_verif_tamper(int kind, uint32_t *value) {
+  TamperState &t = g_tamper;
+  if (!t.active || kind < 0 || kind >= 8) return;
+  const long occ = static_cast<long>(t.seen[kind].size());
+  t.seen[kind].push_back(*value);
+  if (kind == t.target_kind && occ == t.target_occ) {
+    *value = t.value;
+    t.hit = true;
+  }
+}
+
+static std::string run_enc_with_tamper(const vh::Args &a, size_t from, int kind, long occ, uint32_t val) {
+  auto it = vh::registry().find("enc");
+  if (it == vh::registry().end()) return "bad-op";
+  vh::Args ea;
+  ea.push_back("enc");
+  for (size_t i = from; i < a.size(); ++i) ea.push_back(a[i]);
+  g_tamper = TamperState();
+  g_tamper.active = true;
+  g_tamper.target_kind = kind;
+  g_tamper.target_occ = occ;
+  g_tamper.value = val;
+  std::string r;
+  try {
+    r = it->second(ea);
+  } catch (...) {
+    g_tamper.active = false;
+    throw;
+  }
+  g_tamper.active = false;
+  return r;
+}
+
+// tcount <enc args…>  -> ok <hex> | <kind>:<v,v,…> for the 8 kinds (values the encoder handed to the hook, in order)
+VH_OP(tcount) {
+  std::string r = run_enc_with_tamper(a, 1, -1, -1, 0);
+  if (r.rfind("ok ", 0) != 0) return r;
+  std::istringstream ss(r);
+  std::string okt, hx;
+  ss >> okt >> hx;
+  std::string out = "ok " + hx + " |";
+  for (int k = 0; k < 8; ++k) out += " " + std::to_string(k) + ":" + vh::joinl(g_tamper.seen[k]);
+  return out;
+}
+
+// tenc <kind> <occurrence> <value> <enc args…> -> ok <hex> <hit 0|1>   (one value replaced before entropy coding)
+VH_OP(tenc) {
+  if (a.size() < 5) return "bad-op";
+  std::string r = run_enc_with_tamper(a, 4, atoi(a[1].c_str()), atol(a[2].c_str()),
+                                      static_cast<uint32_t>(vh::u64(a[3])));
+  if (r.rfind("ok ", 0) != 0) return r;
+  std::istringstream ss(r);
+  std::string okt, hx;
+  ss >> okt >> hx;
+  return "ok " + hx + " " + (g_tamper.hit ? "1" : "0");
+}
